@@ -431,11 +431,11 @@ LEX_FAMILIES = {
 def lex_once(text):
     lx = CLexer(lambda m, l, c: None, lambda: None, lambda: None, lambda n: False)
     lx.input(text)
-    t = time.perf_counter()
+    t = time.thread_time()
     for _k in range(len(text) + 3):
         if lx.token() is None:
             break
-    return time.perf_counter() - t
+    return time.thread_time() - t
 
 
 class _FirstError(Exception):
@@ -453,14 +453,14 @@ def lex_time(text, stop_at_error=False):
     for _ in range(5):
         lx = CLexer(_raise_first if stop_at_error else (lambda m, l, c: None), lambda: None, lambda: None, lambda n: False)
         lx.input(text)
-        t = time.perf_counter()
+        t = time.thread_time()
         try:
             for _k in range(len(text) + 3):
                 if lx.token() is None:
                     break
         except _FirstError:
             pass
-        dt = time.perf_counter() - t
+        dt = time.thread_time() - t
         best = dt if best is None or dt < best else best
         if dt > 2.0:
             break
